@@ -215,6 +215,22 @@ def universe(tier, seed, shard, nshards):
                 yield 'U2-ndim', 2, q, cands, ({'window': w} if w else {})
 
 
+def hist_universe2(tier, seed, shard, nshards):
+    """Depth-2 histories on EVERY candidate list of length 3 (4 in thorough) over the pools, in every order."""
+    idx = 0
+    for query, pool in pools(seed):
+        for N in ((3, 4) if tier == 'thorough' else (3,)):
+            for cands in itertools.product(pool, repeat=N):
+                idx += 1
+                if idx % nshards != shard:
+                    continue
+                D = ref_dists(query, cands, {}, 1)
+                for md in limits(D)[:2]:
+                    for use_c in (False, True):
+                        yield query, cands, {}, md, True, use_c
+                yield query, cands, {'window': 1}, None, True, False
+
+
 def hist_universe(tier, seed, shard, nshards):
     idx = 0
     for query, pool in pools(seed):
@@ -240,6 +256,8 @@ def worker(acc, shard, nshards, tier, seed):
     depth = 4 if tier == 'thorough' else 3
     for query, cands, opts, md, use_lb, use_c in hist_universe(tier, seed, shard, nshards):
         check_histories(acc, E, query, cands, opts, md, use_lb, use_c, depth)
+    for query, cands, opts, md, use_lb, use_c in hist_universe2(tier, seed, shard, nshards):
+        check_histories(acc, E, query, cands, opts, md, use_lb, use_c, 2)
 
 
 def run(ctx):
@@ -249,7 +267,7 @@ def run(ctx):
     return core.finish(
         PROP, ctx.tier, ctx.seed, acc,
         rule='E1: every candidate list of 1..%d series drawn with repetition (hence in every order) from pools built to create ties and duplicates x window x penalty x psi x every max_dist/max_value '
-             'threshold class x use_lb x engine x every k in 1..N+1 and None; E2: every history up to depth %d over {kbest_matches(1|2|3|None), best_match, align(2), kbest_matches_fast(2), reset}; '
+             'threshold class x use_lb x engine x every k in 1..N+1 and None; E2: every history up to depth %d over {kbest_matches(1|2|3|None), best_match, align(2), kbest_matches_fast(2), reset} on 3 candidate lists, and every depth-2 history on EVERY ordered candidate list of length 3 over the pools (use_lb on); '
              'non-trivial = a threshold excludes a candidate or k < N / history length >= 2' % (5 if ctx.thorough else 4, 4 if ctx.thorough else 3),
         bounds={'pools': '2 univariate pools (6 and 5 series, lengths 1..4) and one 2-dimensional pool', 'thresholds': 'None, between best and 2nd best, a middle gap, above all, below all; as max_dist and as max_value'},
         assumptions=['reference = sorted exhaustive reference DTW distances; indices are compared up to ties (a reported index must have the reported distance)',
